@@ -551,4 +551,130 @@ Section Exact.
   Qed.
 End Exact.
 
+(* ---------------- the K closest nodes of a network, as a function ---------------- *)
+Lemma ins_length_new (A : Type) (cmp : A -> A -> comparison) x l :
+  (forall y, In y l -> cmp x y <> Eq) -> length (ins cmp x l) = S (length l).
+Proof.
+  induction l as [|a l IH]; simpl; intros H; [reflexivity|].
+  destruct (cmp x a) eqn:E.
+  - exfalso. exact (H a (or_introl eq_refl) E).
+  - reflexivity.
+  - simpl. rewrite IH; [reflexivity|]. intros y Hy. apply H. right. exact Hy.
+Qed.
+
+Section KClosest.
+  Variable tb : addrport -> addrport -> comparison.
+  Hypothesis tb_refl : forall a, tb a a = Eq.
+  Hypothesis tb_eq : forall a b, tb a b = Eq -> a = b.
+  Hypothesis tb_antisym : forall a b, tb b a = CompOpp (tb a b).
+  Hypothesis tb_trans : forall a b c, tb a b = Lt -> tb b c = Lt -> tb a c = Lt.
+  Variable target : N.
+  Variable k : nat.
+
+  Definition nk_elem (n : ninfo) : kelem unit := mkK (fst n) (snd n) tt.
+  (* the K nodes of Net nearest to the target: push all of them into a K-nearest container *)
+  Definition k_closest (Net : list ninfo) : list ninfo :=
+    map (nkey unit) (kn_run unit tb target k (map nk_elem Net)).
+
+  Lemma nkey_nk_elem n : nkey unit (nk_elem n) = n.
+  Proof. destruct n; reflexivity. Qed.
+
+  Lemma nk_elem_nkey (m : kelem unit) : nk_elem (nkey unit m) = m.
+  Proof. destruct m as [i a []]. reflexivity. Qed.
+
+  Variable Net : list ninfo.
+  Hypothesis net_ids : NoDup (map fst Net).
+
+  Lemma k_closest_incl : incl (k_closest Net) Net.
+  Proof.
+    intros y Hy. unfold k_closest in Hy. apply in_map_iff in Hy. destruct Hy as [m [<- Hm]].
+    apply (kn_run_incl unit tb tb_refl tb_eq tb_antisym tb_trans) in Hm.
+    apply in_map_iff in Hm. destruct Hm as [n [<- Hn]]. rewrite nkey_nk_elem. exact Hn.
+  Qed.
+
+  Lemma k_closest_nodup : NoDup (k_closest Net).
+  Proof.
+    unfold k_closest.
+    assert (Hs := kn_run_ksorted unit tb tb_refl tb_eq tb_antisym tb_trans target k (map nk_elem Net)).
+    apply NoDup_map_on.
+    - apply (srt_nodup _ (@k_cmp unit tb target)); [exact Hs|].
+      intros a. apply (kcmp_eq_same_key unit tb tb_refl tb_eq). split; reflexivity.
+    - intros a b Ha Hb He.
+      apply (kn_sorted_keys_unique unit tb tb_refl tb_eq target _ a b Hs Ha Hb).
+      unfold nkey in He. injection He as H1 H2. split; assumption.
+  Qed.
+
+  Lemma kn_all_length_distinct (l : list ninfo) :
+    NoDup (map fst l) -> length (kn_all unit tb target (map nk_elem l)) = length l.
+  Proof.
+    induction l as [|x l IH] using rev_ind; intros Hnd; [reflexivity|].
+    rewrite map_app in Hnd. simpl in Hnd.
+    rewrite map_app. simpl. rewrite (kn_all_snoc unit tb), (kn_insert_ins unit tb).
+    assert (Hl : NoDup (map fst l)) by (apply NoDup_remove_1 in Hnd; rewrite app_nil_r in Hnd; exact Hnd).
+    assert (Hx : ~ In (fst x) (map fst l)) by (apply NoDup_remove_2 in Hnd; rewrite app_nil_r in Hnd; exact Hnd).
+    rewrite ins_length_new.
+    - rewrite (IH Hl), app_length. simpl. lia.
+    - intros y Hy E. apply (kcmp_eq_same_key unit tb tb_refl tb_eq) in E. destruct E as [E _].
+      apply (kn_all_incl unit tb tb_refl tb_eq tb_antisym tb_trans) in Hy.
+      apply in_map_iff in Hy. destruct Hy as [n [<- Hn]]. cbn in E.
+      apply Hx. rewrite E. apply in_map. exact Hn.
+  Qed.
+
+  Lemma k_closest_length : length (k_closest Net) = Nat.min k (length Net).
+  Proof.
+    unfold k_closest. rewrite map_length.
+    rewrite (kn_run_length unit tb tb_refl tb_eq tb_antisym tb_trans).
+    rewrite (kn_all_length_distinct Net net_ids). reflexivity.
+  Qed.
+
+  Lemma k_closest_nearest a b :
+    In a (k_closest Net) -> In b Net -> ~ In b (k_closest Net) ->
+    (dist (fst a) target < dist (fst b) target)%N.
+  Proof.
+    intros Ha Hb Hnb. pose proof (k_closest_incl a Ha) as HaN.
+    unfold k_closest in Ha. apply in_map_iff in Ha. destruct Ha as [m [<- Hm]].
+    assert (Hp : In (nk_elem b) (map nk_elem Net)) by (apply in_map; exact Hb).
+    destruct (kn_all_has_key unit tb tb_refl tb_eq tb_antisym tb_trans target _ _ Hp) as [y [Hy [Hk1 Hk2]]].
+    assert (Ey : y = nk_elem b).
+    { destruct y as [yi ya []]. cbn in Hk1, Hk2. subst. reflexivity. }
+    subst y.
+    assert (Hny : ~ In (nk_elem b) (kn_run unit tb target k (map nk_elem Net))).
+    { intros Hin. apply Hnb. unfold k_closest. rewrite <- (nkey_nk_elem b). apply in_map. exact Hin. }
+    destruct (kn_run_nearest unit tb tb_refl tb_eq tb_antisym tb_trans target k _ m _ Hm Hy Hny) as [_ Hle].
+    cbn in Hle. cbn.
+    destruct (N.eq_dec (dist (k_id m) target) (dist (fst b) target)) as [E|E]; [|lia].
+    exfalso. apply dist_inj_l in E.
+    assert (nkey unit m = b) by (apply (map_inj_on fst Net _ _ net_ids HaN Hb); exact E).
+    apply Hnb. rewrite <- H. unfold k_closest. apply in_map. exact Hm.
+  Qed.
+End KClosest.
+
+(* C02_exact with NK instantiated by the function *)
+Theorem C02_exact_k_closest
+  (D : Type) (node_filter : ami -> bool) (data_filter : D -> bool)
+  (tb : addrport -> addrport -> comparison)
+  (tb_refl : forall a, tb a a = Eq) (tb_eq : forall a b, tb a b = Eq -> a = b)
+  (tb_antisym : forall a b, tb b a = CompOpp (tb a b))
+  (tb_trans : forall a b c, tb a b = Lt -> tb b c = Lt -> tb a c = Lt)
+  (target : N) (k alpha : nat) (k_pos : 1 <= k) (alpha_pos : 1 <= alpha)
+  (Net : list ninfo)
+  (net_ids : NoDup (map fst Net)) (net_addrs : NoDup (map snd Net))
+  (net_filter : forall n, In n Net -> node_filter (ni_ami n) = true)
+  (sched : list (label D)) :
+  honest_exec D node_filter data_filter tb target k alpha Net (k_closest tb target k Net) init sched ->
+  at_stalled_offer (run D node_filter data_filter tb true target k alpha sched) = true ->
+  st_offered (run D node_filter data_filter tb true target k alpha sched) <> [] ->
+  forall x, In x (map (nkey D) (st_closest (run D node_filter data_filter tb true target k alpha sched)))
+            <-> In x (k_closest tb target k Net).
+Proof.
+  exact (C02_exact D node_filter data_filter tb tb_refl tb_eq tb_antisym tb_trans target k alpha
+           k_pos alpha_pos Net net_ids net_addrs net_filter (k_closest tb target k Net)
+           (k_closest_incl tb tb_refl tb_eq tb_antisym tb_trans target k Net)
+           (k_closest_nodup tb tb_refl tb_eq tb_antisym tb_trans target k Net)
+           (k_closest_length tb tb_refl tb_eq tb_antisym tb_trans target k Net net_ids)
+           (k_closest_nearest tb tb_refl tb_eq tb_antisym tb_trans target k Net net_ids)
+           sched).
+Qed.
+
 Print Assumptions C02_exact.
+Print Assumptions C02_exact_k_closest.
